@@ -279,7 +279,11 @@ func (k Keeper) CancelOrder(ctx sdk.Context, orderId uint64) error {
 		return sdkerrors.Wrapf(ordertypes.ErrorRefundOrder, "refund order failed")
 	}
 
-	k.RollbackMeta(ctx, order.DataId)
+	// only roll back a model that still points at this order: the data id may have
+	// been terminated and stored again while this order was in flight
+	if meta, found := k.GetMetadata(ctx, order.DataId); found && meta.OrderId == order.Id {
+		k.RollbackMeta(ctx, order.DataId)
+	}
 	k.order.RemoveOrder(ctx, orderId)
 
 	ctx.EventManager().EmitEvent(
